@@ -962,6 +962,56 @@ func runC12(w *World, r *Report) {
 		}
 	}
 
+	r.Rule("C12.nil-form-needs-no-codec", "the encoder writes a nil pointer (outermost level) as the literal JSON null with the type's key, for EVERY registered type; the decoder answers that form itself: the external codec is reached with the raw bytes only where they were looked at first — the codec builds a decoder for the whole static type before it reads a byte and has none for bool- or struct-keyed maps, which the serializer supports through its own key encoding", 1)
+	{
+		iu := w.Fn("internal/serialization", "internalUnmarshal")
+		fJSON := w.Field("internal/serialization", "internalStruct", "JSONValue")
+		n := 0
+		instrs(iu, func(in ssa.Instruction) {
+			c, ok := in.(*ssa.Call)
+			if !ok {
+				return
+			}
+			sc := staticCallee(c)
+			if sc == nil || w.inRepo(sc) || !strings.HasPrefix(sc.Name(), "Unmarshal") || len(c.Call.Args) < 2 || !isLoadOfField(through(c.Call.Args[0]), fJSON) {
+				return
+			}
+			n++
+			onBytes := func(g guard) bool {
+				found := false
+				var visit func(v ssa.Value, d int)
+				visit = func(v ssa.Value, d int) {
+					if v == nil || d > 8 || found {
+						return
+					}
+					if isLoadOfField(v, fJSON) {
+						found = true
+						return
+					}
+					if ins, ok := v.(ssa.Instruction); ok {
+						for _, op := range ins.Operands(nil) {
+							visit(*op, d+1)
+						}
+					}
+				}
+				visit(g.cond, 0)
+				return found
+			}
+			// a dominating test, or one conjunct of a short-circuit test on the way in (PointerNum > 0 && bytes == null)
+			looked := hasGuard(c.Block(), onBytes)
+			for d := c.Block(); d != nil && !looked; d = d.Idom() {
+				for _, g := range compoundEntryGuards(d) {
+					if onBytes(g) {
+						looked = true
+					}
+				}
+			}
+			r.Check(looked, "C12.nil-form-needs-no-codec", "internalUnmarshal hands JSONValue to "+sc.Name(), c.Pos(), "under a test of the bytes (the null form is answered before)", "the nil form goes to the codec like any other bytes: sonic.Unmarshal(\"null\", **T) compiles a decoder for all of T first, so (*T)(nil) — accepted by Marshal — cannot be read back when T contains, at any depth, a map[bool]V or a struct-keyed map ('json: cannot unmarshal into Go value of type map[…]'): a checkpoint whose state has such a nil pointer (a lazily filled cache) is written without complaint and can never be loaded")
+		})
+		if n == 0 {
+			undecidedf("C12.nil-form-needs-no-codec: no codec call on internalStruct.JSONValue in internalUnmarshal")
+		}
+	}
 	shareRule(w, r, "C12.decoded-channel-taken-whole", "what was decoded of a channel is what the run continues with: load copies every exported field of the decoded channel (the bytes are right, the restored value must be too)", 8, "C05", "C05.channel-state")
 
 	shareRule(w, r, "C12.written-is-what-was-there", "the checkpoint handed to the store is the one the interrupt handlers assembled: no entry of its tables is deleted on the way (a channel without a pending value still carries state)", 0, "C05", "C05.nothing-dropped-at-save")
